@@ -8,6 +8,7 @@
 // Op lines (one per operation, answered by the Lean driver drv_c19 as well):
 //
 //	rt <tree>                          build, Save, file bytes, Load      -> ok|err <hex> <dump> | api-reject | api-dup | PANIC
+//	rtp <nB> <nL> <nF> <tree>          as rt, but the root counters are overwritten before Save (not judged)
 //	load <hex>                         fav.Load on these bytes as .fav    -> err | <dump> | PANIC | TIMEOUT
 //	mt <fileMTime|none> <memMTime>     checkIsToSave through Save         -> write | keepSelf | reload
 //	trace save <tree> | trace wf <hex> system calls of one uninterrupted save (strace) -> shape
@@ -294,11 +295,18 @@ func readFav(u *ptttype.UserID_t) string {
 }
 
 // saveTree: build + Save for user u (no .fav present). Returns the canonical answer.
-func saveTree(u *ptttype.UserID_t, items []*spec) string {
+func saveTree(u *ptttype.UserID_t, items []*spec) string { return saveTreeP(u, items, nil) }
+
+func saveTreeP(u *ptttype.UserID_t, items []*spec, counters []uint64) string {
 	cleanDir(u)
 	f := fav.NewFavRaw(nil)
 	if st := build(f, items); st != "" {
 		return "api-" + st
+	}
+	if counters != nil {
+		f.NBoards = int16(uint16(counters[0]))
+		f.NLines = int8(uint8(counters[1]))
+		f.NFolders = int8(uint8(counters[2]))
 	}
 	out := hx.CallT(10*time.Second, func() string {
 		nf, err := f.Save(u)
@@ -517,6 +525,19 @@ func execOp(line string) (res result) {
 		res.out = saveTree(uid, items)
 		res.label = "rt:" + classify(items, res.out)
 		judgeRT(items, &res)
+	case "rtp":
+		if len(ws) < 4 {
+			return bad()
+		}
+		a, e1 := num(ws[1], 65535)
+		b, e2 := num(ws[2], 255)
+		c, e3 := num(ws[3], 255)
+		items, err := parseTree(ws[4:])
+		if e1 != nil || e2 != nil || e3 != nil || err != nil {
+			return bad()
+		}
+		res.out = saveTreeP(uid, items, []uint64{a, b, c})
+		res.label = "rtp:" + strings.Fields(res.out)[0]
 	case "load":
 		if len(ws) != 2 || !isHex(ws[1]) {
 			return bad()
@@ -569,7 +590,7 @@ func execOp(line string) (res result) {
 		ok, log, err := runChild("", args)
 		if err != nil || !ok {
 			res.out = "child-failed"
-			res.notes = append(res.notes, fmt.Sprint("trace: ", err))
+			res.notes = append(res.notes, fmt.Sprint("trace: the traced child did not complete its save: ", err))
 		} else {
 			res.out = shapeOf(log)
 		}
